@@ -21,4 +21,33 @@ struct Registrar {
   H h;
   Registrar() { xsim::register_harness(&h); }
 };
+
+// Reach probes shared by every harness whose structures use a reclaimer (function reach probes of the runtime, see
+// xsim.hpp). All optional: a binary only reports the reclaimers it instantiates.
+inline void register_reclaimer_probes() {
+  using xsim::fn_pair_probe;
+  using xsim::fn_probe;
+  fn_probe("reclaimer: scan of retired nodes / of the thread list executed", "4scanE", true);
+  fn_probe("reclaimer: exiting thread abandons its retired nodes (abandon_retired_nodes)", "21abandon_retired_nodes", true);
+  fn_probe("reclaimer: abandoned retired nodes adopted by another thread", "29adopt_abandoned_retired_nodes", true);
+  fn_probe("reclaimer: control block of an exited thread re-used (try_adopt)", "9try_adopt", true);
+  fn_probe("hazard_pointer/hazard_eras: dynamic block of slots allocated", "allocate_new_hazard", true);
+  fn_probe("generic_epoch_based: update_global_epoch executed", "19update_global_epoch", true);
+  fn_probe("generic_epoch_based: orphaned retire lists adopted (adopt_orphans)", "13adopt_orphans", true);
+  fn_probe("quiescent_state_based: try_update_epoch executed", "16try_update_epoch", true);
+  fn_probe("stamp_it: remove_from_prev_list executed", "21remove_from_prev_list", true);
+  fn_probe("stamp_it: remove_from_next_list executed", "21remove_from_next_list", true);
+  fn_probe("stamp_it: process_global_nodes executed", "20process_global_nodes", true);
+  fn_probe("lock_free_ref_count: node pushed to the free list (recycling)", "17push_to_free_list", true);
+  fn_pair_probe("reclaimer: scan overlaps a guard acquisition of another thread", "4scanE", "guard_ptr&7acquireE", true);
+  fn_pair_probe("reclaimer: thread exit (thread_data destructor) overlaps a scan of another thread", "thread_dataD2Ev", "4scanE", true);
+  fn_pair_probe("reclaimer: two thread exits overlap", "thread_dataD2Ev", "thread_dataD2Ev", true);
+  fn_pair_probe("reclaimer: abandon_retired_nodes overlaps adopt_abandoned_retired_nodes", "21abandon_retired_nodes", "29adopt_abandoned_retired_nodes", true);
+  fn_pair_probe("reclaimer: try_adopt overlaps a thread exit", "9try_adopt", "thread_dataD2Ev", true);
+  fn_pair_probe("generic_epoch_based: update_global_epoch overlaps a critical-region entry", "19update_global_epoch", "14enter_critical", true);
+  fn_pair_probe("generic_epoch_based: thread exit overlaps update_global_epoch", "thread_dataD2Ev", "19update_global_epoch", true);
+  fn_pair_probe("quiescent_state_based: two try_update_epoch overlap", "16try_update_epoch", "16try_update_epoch", true);
+  fn_pair_probe("stamp_it: thread_order_queue push overlaps remove", "thread_order_queue&4pushE", "thread_order_queue&6removeE", true);
+  fn_pair_probe("stamp_it: two removals overlap", "thread_order_queue&6removeE", "thread_order_queue&6removeE", true);
+}
 } // namespace hx
